@@ -31,7 +31,7 @@ def handle (l : Line) : IO Unit := do
         IO.println h
         for line in rawLines id l c do IO.println line
         for line in rest do IO.println line
-      IO.println (specLine id c "ok" (rawCellsDigest l c))
+      IO.println (specLine id c "ok" (rawCellsDigest l c) (specOrders l c))
   | _ => pure ()
 
 end Driver.C14
